@@ -71,7 +71,8 @@ Note(k, v) ==
                                                       LB("Ref", 0, n \o "s", <<L(U(a.up, a.segs, TRUE, FALSE), "inline", n \o "sa")>>),
                                                       P("self", <<L(Rel(k, d), "inline", n \o "me")>>)>>]
       [] v = 8 -> [title |-> "T" \o n, blocks |-> <<LB("Quote", 0, n \o "q", <<L(a, "inline", n \o "qa")>>),
-                                                      LB("Em", 0, n \o "e", <<L(U(b.up, b.segs, FALSE, b.up = 0), "inline", n \o "eb")>>)>>]
+                                                      LB("Em", 0, n \o "e", <<L(U(b.up, b.segs, FALSE, b.up = 0), "inline", n \o "eb")>>),
+                                                      LB("Em2", 0, n \o "f", <<L(a, "inline", n \o "fa")>>)>>]
       [] v = 10 -> [title |-> "T" \o n, blocks |-> <<LB("Code", 0, n \o "c", <<>>),
                                                        LB("Ref", 0, n \o "r", <<L(a, "inline", n \o "ra")>>),
                                                        LB("Rule", 0, "", <<>>),
@@ -99,6 +100,11 @@ Note(k, v) ==
       [] v = 15 -> [title |-> "T" \o n, blocks |-> <<LB("Item", 0, n \o "i1", <<>>), LB("CodeItem", 0, n \o "ci", <<>>),
                                                        LB("QuoteItem", 0, n \o "qi", <<>>), LB("Item", 0, n \o "i2", <<L(a, "inline", n \o "il")>>),
                                                        P("tail", <<>>)>>]
+      \* front matter (a first block of kind "Meta"), sections to extract, a reference to inline, a list to convert
+      [] v = 16 -> [title |-> "T" \o n, blocks |-> <<LB("Meta", 0, n \o "meta", <<>>), P("intro", <<>>),
+                                                       LB("H", 2, n \o "a2", <<>>), P("ap", <<L(a, "inline", n \o "al")>>),
+                                                       LB("Ref", 0, n \o "r", <<L(b, "inline", n \o "rb")>>),
+                                                       LB("H", 2, n \o "b2", <<>>), LB("Item", 0, n \o "i1", <<>>), LB("Item", 0, n \o "i2", <<>>)>>]
       [] v = 9 -> [title |-> "T" \o n, blocks |-> <<LB("Ref", 0, n \o "m", <<L(Rel(MISSING, d), "inline", n \o "mm")>>),
                                                       P("x", <<X("https://example.com/" \o n, n \o "xx"), X("HTTPS://EXAMPLE.COM/" \o n, n \o "xy")>>),
                                                       P("w", <<L(a, "wiki", ""), L(b, "piped", n \o "pb")>>)>>]
@@ -127,7 +133,7 @@ Update(k, v) ==
     /\ steps' = Append(steps, [key |-> k, note |-> Note(k, v), new |-> k \notin DOMAIN docs])
     /\ UNCHANGED init
 
-GNext == (\E v1, v2, v3 \in 0..15 : Start(v1, v2, v3)) \/ (\E k \in {K1, K2, K3, K4, K5, K6}, v \in 0..15 : Update(k, v))
+GNext == (\E v1, v2, v3 \in 0..16 : Start(v1, v2, v3)) \/ (\E k \in {K1, K2, K3, K4, K5, K6}, v \in 0..16 : Update(k, v))
 GSpec == GInit /\ [][GNext]_vars
 
 Emit == Started => PrintT(<<"HIST", ToJson([init |-> init, steps |-> steps])>>)
